@@ -133,6 +133,7 @@ fn new_builder(tag: &str, idx: u64, max_depth: usize) -> Builder {
     b.lines.push("#define T1 1".into());
     b.lines.push("#define T0 0".into());
     b.lines.push("#define DEF_EMPTY".into());
+    b.lines.push("#define FMAC(a) (a)".into());
     for k in 0..4 {
         b.lines.push(format!("#define U{} 1", k));
     }
@@ -188,14 +189,25 @@ impl Builder {
         let mut regions: Vec<(String, bool)> = Vec::new();
         for bi in 0..nb.0 {
             let t = (truth >> bi) & 1 == 1;
-            let head = if bi == 0 {
+            // a condition that is never evaluated (the group sits in an unselected region, or an
+            // earlier branch of the group was taken) may name macros that exist nowhere
+            let unevaluated = !enclosing || (bi > 0 && matched);
+            let blanks = ["", " ", "  "][(self.rng.below(6) % 3) as usize]; // extra blanks after the keyword
+            let defined_name = if self.rng.chance(1, 3) { "FMAC" } else { "DEF_EMPTY" };
+            let head = if unevaluated && self.rng.chance(1, 3) {
+                if bi == 0 {
+                    format!("#if {}NOWHERE_{} == 1", blanks, self.next_id)
+                } else {
+                    format!("#elif {}NOWHERE_{}", blanks, self.next_id)
+                }
+            } else if bi == 0 {
                 match form {
-                    1 => format!("#ifdef {}", if t { "DEF_EMPTY" } else { "NEVER_DEFINED" }),
-                    2 => format!("#ifndef {}", if t { "NEVER_DEFINED" } else { "DEF_EMPTY" }),
-                    _ => format!("#if {}", self.cond_text(t)),
+                    1 => format!("#ifdef {}{}", blanks, if t { defined_name } else { "NEVER_DEFINED" }),
+                    2 => format!("#ifndef {}{}", blanks, if t { "NEVER_DEFINED" } else { defined_name }),
+                    _ => format!("#if {}{}", blanks, self.cond_text(t)),
                 }
             } else {
-                format!("#elif {}", self.cond_text(t))
+                format!("#elif {}{}", blanks, self.cond_text(t))
             };
             let selected = enclosing && !matched && t;
             if t {
